@@ -125,6 +125,19 @@ func IDs() []string {
 
 // ---------------------------------------------------------------- child
 
+var cursorFile *os.File
+
+// Cursor records (cheaply, overwriting) what the child is about to do inside
+// the current case, so that a crash can be attributed to an exact input.
+func Cursor(s string) {
+	if cursorFile == nil {
+		return
+	}
+	b := make([]byte, 512)
+	copy(b, s)
+	cursorFile.WriteAt(b, 0)
+}
+
 func ChildMain(propID, tier string, seed int64, start, stride, n int, out string) int {
 	p := Get(propID)
 	if p == nil {
@@ -137,7 +150,9 @@ func ChildMain(propID, tier string, seed int64, start, stride, n int, out string
 		return 3
 	}
 	defer f.Close()
+	cursorFile, _ = os.OpenFile(out+".cur", os.O_CREATE|os.O_RDWR|os.O_TRUNC, 0o644)
 	for idx := start; idx < n; idx += stride {
+		Cursor("")
 		fmt.Fprintf(f, "BEGIN %d\n", idx)
 		var res *Result
 		for attempt := 0; attempt < 3; attempt++ {
@@ -413,6 +428,7 @@ func RunParent(p *Prop, o Options) int {
 				f.Close()
 			}
 			os.Remove(out)
+			defer os.Remove(out + ".cur")
 			if timedOut {
 				a.mu.Lock()
 				a.incon++
@@ -426,7 +442,15 @@ func RunParent(p *Prop, o Options) int {
 			if lastBegin != lastEnd && lastBegin >= 0 {
 				// the child died inside case lastBegin
 				eb, _ := os.ReadFile(errf)
+				cur, _ := os.ReadFile(out + ".cur")
+				curs := strings.TrimRight(string(cur), "\x00")
+				if curs != "" {
+					eb = append([]byte("CURSOR: "+curs+"\n"), eb...)
+				}
 				goat, key, head := classifyCrash(string(eb))
+				if curs != "" {
+					head = head + " | input: " + curs
+				}
 				keep := filepath.Join(o.VerifDir, "replays", fmt.Sprintf("%s-s%d-c%d.crash.stderr", p.ID, o.Seed, lastBegin))
 				os.WriteFile(keep, eb, 0o644)
 				a.mu.Lock()
